@@ -3,13 +3,14 @@
    input/output rows, insert_return_vars and DFContainer; expression/statement compilers,
    generics, nested functions and comptime are only differentially validated by the check. *)
 From Coq Require Import ZArith List Bool Lia Permutation Sorted.
-From V.C01 Require Import ModelLower ProofsLower ProofsRet.
+From V.C01 Require Import ModelLower ModelObs ProofsCmp ProofsLower ProofsRet.
 Import ListNotations.
 Open Scope Z_scope.
 
 (* ---- sort_vars is a deterministic total order ------------------------------------------ *)
 
-(* compare_var is a strict total order on the keys (not droppable, str(place)) *)
+(* compare_var (key tuple = GenCmp.key_spec, regenerated from the source on every run) is a
+   strict total order on variables with distinct names *)
 Theorem compare_var_total_order :
   (forall a, ~ vlt a a) /\
   (forall a b c, vlt a b -> vlt b c -> vlt a c) /\
